@@ -52,7 +52,7 @@ Example C02_accepts_a_loop :
          ILoop 0 0 [ICalc [(2, [(1, [1]); (1, [2])])]; IOut 2; IIn 0; ICalc [(1, [])]] false; IOut 2])
     [Inp 0; Copy (Mem 1) (Imm 3); BrZ 0 6; Add (Mem 2) (Mem 2) (Mem 1); Outp 2; Inp 0;
      Copy (Mem 1) (Imm 0); BrNZ 0 (-4); Outp 2] [0; 1; 2]
-    [CLoop 3 7 {| f_c := []; f_d := []; f_t := []; f_nz := [] |}] = true.
+    [CLoop 3 7 {| f_c := []; f_d := []; f_t := []; f_nz := [] |} {| f_c := []; f_d := []; f_t := []; f_nz := [] |}] = true.
 Proof. vm_compute. reflexivity. Qed.
 
 (** ... and a wrong translation of the same IR (the addition reads cell 0 instead of cell 1) is not *)
@@ -62,7 +62,7 @@ Example C02_rejects_a_wrong_operand :
          ILoop 0 0 [ICalc [(2, [(1, [1]); (1, [2])])]; IOut 2; IIn 0; ICalc [(1, [])]] false; IOut 2])
     [Inp 0; Copy (Mem 1) (Imm 3); BrZ 0 6; Add (Mem 2) (Mem 2) (Mem 0); Outp 2; Inp 0;
      Copy (Mem 1) (Imm 0); BrNZ 0 (-4); Outp 2] [0; 1; 2]
-    [CLoop 3 7 {| f_c := []; f_d := []; f_t := []; f_nz := [] |}] = false.
+    [CLoop 3 7 {| f_c := []; f_d := []; f_t := []; f_nz := [] |} {| f_c := []; f_d := []; f_t := []; f_nz := [] |}] = false.
 Proof. vm_compute. reflexivity. Qed.
 
 (** ** level 0, end to end: from the source text to the bytecode, for every input.
